@@ -94,11 +94,11 @@ def project_part(part, with_ids=True, exclude=()):
             "qtab": [[int(a), int(b)] for a, b in part.quarter_durations()]}
 
 
-def project_score(sc):
+def project_score(sc, exclude=()):
     import partitura.score as score
     if isinstance(sc, score.Part):
-        return {"parts": [project_part(sc)]}
-    out = {"parts": [project_part(p) for p in sc.parts]}
+        return {"parts": [project_part(sc, exclude=exclude)]}
+    out = {"parts": [project_part(p, exclude=exclude) for p in sc.parts]}
 
     def grp(g):
         if isinstance(g, score.PartGroup):
